@@ -180,7 +180,27 @@ fn gen_case(seed: u64, i: u64, thorough: bool) -> Case {
             let mut frags = s.frags.clone();
             let (mut rows, mut cols, mut spp, mut bits, mut frames) = (s.rows as u32, s.cols as u32, s.spp as u32, s.bits as u32, s.frames);
             let ts = if s.ts == objs::EXPLICIT_LE { objs::RLE_LOSSLESS } else { s.ts };
-            for _ in 0..nmut {
+            // RLE header boundaries: the 64-byte header holds a segment count (at most 15) and 15 offsets; sweep
+            // the count around its limit against fragment lengths around the header size
+            let hdr_sweep = r.chance(1, 4);
+            if hdr_sweep {
+                let c = *r.pick(&[0u32, 1, 2, 3, 14, 15, 15, 16, 16, 16, 17, 20, 255, 65536]);
+                let l = *r.pick(&[0usize, 3, 4, 5, 8, 60, 63, 64, 65, 66, 67, 68, 69, 72, 128]);
+                let mut f = if frags.is_empty() { vec![] } else { frags[0].clone() };
+                if f.len() < 4 {
+                    f.resize(4, 0);
+                }
+                f[0..4].copy_from_slice(&c.to_le_bytes());
+                f.resize(l, 0);
+                if frags.is_empty() {
+                    frags.push(f);
+                } else {
+                    frags[0] = f;
+                }
+                muts.push("rlehdr");
+            }
+            let ts = if hdr_sweep { objs::RLE_LOSSLESS } else { ts };
+            for _ in 0..(if hdr_sweep { 0 } else { nmut }) {
                 match r.below(8) {
                     0 => {
                         let v = *r.pick(&[0u32, 1, 2, 3, 255, 256, 4096, 65535]);
